@@ -178,5 +178,5 @@ package data
 //@   props C12
 //@   wrap64
 //@   loop 1:
-//@     invariant 0 <= i && i <= sampCount && sampCount == (len(payload) - 44)/4 && len(payload) >= 48
+//@     invariant 0 <= i && i <= sampCount && sampCount == (len(payload) - 44)/4 && len(payload) >= 44
 //@     decreases sampCount - i
